@@ -53,6 +53,23 @@ def highdim_pass(ctx):
                         missing = sorted(set(exp) - set(zd))
                         ctx.violation('composition', {**case, 'blades_missing': missing}, canon_dict(exp), canon_dict(zd),
                                       key=f'{op}:composition' + (':dropped-blade' if missing else ''))
+        if alg is alg5:
+            # a large right operand stored densely in binary key order (asfullmv(canonical=False)): canonical vs binary layout
+            yb = tracer_mv(alg, list(range(2 ** d)), 1000)
+            yc = tracer_mv(alg, full, 1000)
+            for kx in ([1, 2, 4, 8, 16], [3, 5, 6, 9, 10, 0]):
+                x = tracer_mv(alg, kx, 0)
+                for op, real, comp in (('proj', lambda y: x @ y, lambda y: (x | y) * ~y),):
+                    for layout, y in (('binary', yb), ('canonical', yc)):
+                        case = {**desc, 'op': op, 'kx': kx, 'ky': 'dense, ' + layout + ' key order'}
+                        ctx.case(case, tag=f'highdim:{op}:dense')
+                        try:
+                            zd, exp = mv_to_dict(real(y)), mv_to_dict(comp(y))
+                        except Exception as e:
+                            ctx.violation('raises', case, 'a multivector', repr(e)[:300], key=f'{op}:raises:{type(e).__name__}')
+                            continue
+                        if not dict_equal(zd, exp):
+                            ctx.violation('composition', case, canon_dict(exp)[:300], canon_dict(zd)[:300], key=f'{op}:composition:dense')
         for kx in ns:
             x = tracer_mv(alg, kx, 0)
             case = {**desc, 'op': 'normsq', 'kx': kx}
